@@ -25,6 +25,7 @@ type c19Spec struct {
 	GW    int      `json:"gw,omitempty"`   // constant groundwater level from the soil file inside the profile
 	PTF   int      `json:"ptf,omitempty"`    // pedotransfer function 1-4 (capacity values derived from the texture fractions)
 	MissT int      `json:"miss_t,omitempty"` // 1: the mean temperature of the start day is missing in the weather file (front passage around it)
+	Zero  bool     `json:"zero,omitempty"`   // capacity values that are not given are written as 0 (not as empty cells) in the soil table
 }
 
 var c19Sigma = map[string]proj.Day{
@@ -144,6 +145,29 @@ func init() {
 					out = append(out, c19Spec{Base: e1Base{Soil: "custom", Hor: []proj.Horizon{h}, GW: 99, InitW: 0.6, InitN: 10, ET: 3}, Word: []string{around, "mild", "mild", "mild"}, TBase: 8.7, MissT: 1})
 				}
 			}
+			// soil tables in which only some horizons carry a measured density (the others fall back to their class),
+			// capacity cells empty or written as 0
+			for _, zero := range []bool{false, true} {
+				for mask := 1; mask < 7; mask++ {
+					for _, iw := range []float64{0, 0.6} {
+						var hor []proj.Horizon
+						for i, low := range []int{3, 8, 14} {
+							h := proj.Horizon{Tex: []string{"SL3", "LT3", "SS"}[i], Lower: low, BD: []int{2, 4, 3}[i], Corg: []float64{1.5, 0.6, 0.1}[i], CN: 10}
+							if mask&(1<<i) != 0 {
+								h.BulkDensity = []float64{1.3, 1.7, 1.55}[i]
+							}
+							hor = append(hor, h)
+						}
+						base := e1Base{Soil: "custom", Hor: hor, GW: 99, InitW: iw, InitN: 10, ET: 3}
+						out = append(out, c19Spec{Base: base, Alpha: c19Alpha[:5], D: 2, TBase: 8.7, Zero: zero})
+						var w []string
+						for i := 0; i < 20; i++ {
+							w = append(w, []string{"hot-high-rad", "deep-frost"}[i%2])
+						}
+						out = append(out, c19Spec{Base: base, Word: w, TBase: 8.7, Zero: zero})
+					}
+				}
+			}
 			return mc.Specs(out)
 		},
 		Run: c19Run,
@@ -260,6 +284,7 @@ func c19Run(raw json.RawMessage, c *mc.Ctx) {
 	ndays := 2 + len(repeatWord(ws[0], sp.Rep))
 	p := e1Project(sp.Base, ndays)
 	p.Config["AnnualAverageTemperature"] = fmt.Sprint(sp.TBase)
+	p.ZeroCapacityCells = sp.Zero
 	if sp.PTF > 0 {
 		p.Config["PTF"] = fmt.Sprint(sp.PTF)
 	}
